@@ -138,9 +138,22 @@ def watermark_regressions(f, g, rd, loops):
 
 def _loop_rule(rep, f, g, loop, param, acc_pred, rule, what):
   """`for x in <param>`: iterates the parameter itself; every iteration reaches an accumulate node or raises."""
-  it = norm(loop.ast.iter)
-  rep.check(it == param, rule, '%s iterates its whole input' % f.name, f.qualname, 'for ... in %s' % it,
-            '%s iterates `%s`, not every entry of `%s`: entries are skipped' % (f.name, it, param), f.loc(loop.ast))
+  it_e = loop.ast.iter
+  # element-wise wrappers keep every entry: map(f, X), enumerate(X), iter/list/tuple(X), (g(x) for x in X) without filter
+  while True:
+    if isinstance(it_e, ast.Call) and isinstance(it_e.func, ast.Name) and it_e.func.id == 'map' and len(it_e.args) == 2:
+      it_e = it_e.args[1]
+    elif isinstance(it_e, ast.Call) and isinstance(it_e.func, ast.Name) and it_e.func.id in ('enumerate', 'iter', 'list', 'tuple') and it_e.args:
+      it_e = it_e.args[0]
+    elif isinstance(it_e, (ast.GeneratorExp, ast.ListComp)) and len(it_e.generators) == 1 and not it_e.generators[0].ifs:
+      it_e = it_e.generators[0].iter
+    else:
+      break
+  it = norm(it_e)
+  sliced = isinstance(it_e, ast.Subscript) or (isinstance(it_e, ast.Call) and norm(it_e.func).split('.')[-1] in ('islice', 'filter', 'takewhile', 'dropwhile', 'set', 'frozenset'))
+  rep.check3(True if it == param else (False if (sliced or not au.aliens(it_e, (param,))) else None), rule, '%s iterates its whole input' % f.name, f.qualname, 'for ... in %s' % it,
+             '%s iterates `%s`, not every entry of `%s`: entries are skipped' % (f.name, it, param), f.loc(loop.ast),
+             why_open='the iterated expression `%s` reads names that are not resolved' % it[:60])
   body = [n for n in g.nodes if n.ast is not None and any(x is n.ast for x in ast.walk(loop.ast))]
   leave = [n for n in body if n.kind in ('break', 'return')]
   rep.check(not leave, rule, '%s never leaves the loop early' % f.name, f.qualname,
@@ -148,6 +161,18 @@ def _loop_rule(rep, f, g, loop, param, acc_pred, rule, what):
             f.loc(leave[0].ast) if leave else f.loc())
   accs = {n for n in body if acc_pred(n)}
   p = g.iteration_skipping(loop, accs)
+  if not accs:
+    rep.undecided(rule, 'every iteration of %s accumulates (or raises)' % f.name, 'no statement of the loop body adds to the result in a recognised form (append / += / extend / add / update)', f.loc(loop.ast))
+    return accs
+  if p is not None:
+    # a skipping path that runs through a call or an update of some container other than the accumulator: the accumulation
+    # may happen there (helper, second-level container)
+    mid = [n for n, _ in p[1:-1]]
+    other_acc = [n for n in mid if n.kind == 'stmt' and any(isinstance(c_, ast.Call) and isinstance(c_.func, ast.Attribute) and c_.func.attr in ('append', 'extend', 'add', 'update', 'insert')
+                                                             for c_ in ast.walk(n.ast))]
+    if other_acc:
+      rep.undecided(rule, 'every iteration of %s accumulates (or raises)' % f.name, 'an iteration adds to another container (`%s`): whether that reaches the result is not followed' % norm(other_acc[0].ast)[:60], f.loc(loop.ast))
+      return accs
   rep.check(bool(accs) and p is None, rule, 'every iteration of %s accumulates (or raises)' % f.name, f.qualname,
             'iteration without accumulate: ' + (' -> '.join(n.text()[:30] for n, _ in p[1:-1]) if p else 'none'),
             'an iteration of %s can finish without adding its %s to the result' % (f.name, what), f.loc(loop.ast))
